@@ -21,13 +21,13 @@ from harness.common import Failure, lean_run, rat, ratlist, intlist
 
 PROP_MODULES = ["ArmiVerif.Props.C02"]
 PARTIAL = ("floating-point rounding is outside the theorems (comparison tolerance 1e-9 relative); volumes of "
-           "components are inputs of the model (shape areas are C03's); lumped-fission-product expansion, element / list "
-           "nuclide specifiers (checked by the oracle only) and composition-dependent thermal expansion inside "
-           "Component.updateNumberDensities are not modelled (no library material has the latter); mass = density x "
-           "volume and the mass read-backs carry the hypothesis 'own volume = mass-carrying volume' (assembly: equal "
-           "block areas, finding assembly-volume-first-block-area; component: parent block not cut by symmetry lines, "
-           "finding component-setmass-symmetry-cut-block); Component.density() of an all-zero composition is outside "
-           "the model (finding component-density-all-zero-composition); component-level setNumberDensities(wipe) and "
+           "components are inputs of the model (shape areas are C03's; the derived shape's remainder is modelled); "
+           "lumped-fission-product expansion, element / list nuclide specifiers (checked by the oracle only) and "
+           "composition-dependent thermal expansion inside Component.updateNumberDensities are not modelled (no library "
+           "material has the latter); at assembly level mass = density x volume and the mass read-backs carry the "
+           "hypothesis of equal block areas (finding assembly-volume-first-block-area); a component with no nuclide entry "
+           "at all reports its material's density (Comp.density, finding "
+           "component-density-empty-composition-reports-material-density); component-level setNumberDensities(wipe) and "
            "changeNDensByFactor are modelled and compared but carry no theorem (they are the definition)")
 ASSUMPTIONS = [
     "component volumes, symmetry factors, block areas/heights, atomic weights and units constants are read from the "
@@ -60,15 +60,12 @@ _DENS = {}
 
 
 def dens(obj):
-    """obj.density(); None when the call raises (component with an all-zero composition, see findings)."""
+    """obj.density(), memoised per edit epoch"""
     key = (id(obj), EPOCH[0])
     if key not in _DENS:
         if len(_DENS) > 20000:
             _DENS.clear()
-        try:
-            _DENS[key] = float(obj.density())
-        except AttributeError:
-            _DENS[key] = None
+        _DENS[key] = float(obj.density())
     return _DENS[key]
 
 
@@ -98,9 +95,15 @@ def leaves(obj):
 
 
 def comp_empty(obj):
-    """component whose number densities are all exactly zero (or absent): Component.density() then falls back to
-    the material's density - outside the model's domain, judged by the oracle alone."""
-    return level_of(obj) == "component" and not any(v != 0.0 for v in obj.p.numberDensities.values())
+    """component with NO nuclide entry at all (e.g. after setNumberDensities({})): Component.density() then reports
+    the material's density (Model: Comp.density, the material density being a parameter)."""
+    return level_of(obj) == "component" and not obj.p.numberDensities
+
+
+def material_density(c):
+    """what Component.density() falls back to, computed the way the code does"""
+    f = type(c.material).density
+    return float(getattr(f, "__wrapped__", f)(c.material, Tc=c.temperatureInC))
 
 
 # --------------------------------------------------------------------------- mirror: real tree -> model session
@@ -182,6 +185,28 @@ def snap_real(obj, nucs):
     return [float(obj.getVolume()), None if comp_empty(obj) else dens(obj), float(obj.getMass())] + nds + ms
 
 
+def add_comp_density(ctx, mir, what, case, c):
+    """Component.density() incl. the material fallback on the empty composition vs Model Comp.density"""
+    from armi.materials import void
+
+    nd = c.p.numberDensities
+    val = dens(c)
+    try:
+        md = material_density(c)
+    except Exception:
+        md = 0.0
+        if not nd:
+            return
+    isvoid = isinstance(c.material, void.Void)
+
+    def check(line):
+        if line in ("reject", "bad-op") or not rel_close(val, common.unrat(line)):
+            ctx.disagree(what, case, line, val)
+
+    mir.emit(f"compdensity {rat(md)} {'T' if isvoid else 'F'} {intlist([mir.nid(n) for n in nd])} {ratlist(list(nd.values()))}",
+             check)
+
+
 def add_snap(ctx, mir, what, case, obj, path, nucs):
     vals = snap_real(obj, nucs)
     k = len(nucs)
@@ -255,14 +280,11 @@ def additivity(obj, fail, nucs, f5_ok=True):
         if not fclose(tot, parts, scale=abs(tot) * 1e-3):
             fail(f"total-mass-is-sum-of-nuclides-{lvl}", "getMass() == sum of getMass(n) over the nuclides present", tot, parts)
         d = dens(obj)
-        if comp_empty(obj):
-            if d is None or not fclose(tot, d * float(obj.getVolume()) / sym):
-                fail("component-density-all-zero-composition",
-                     "component mass == density x volume / symmetry factor (all number densities zero)", tot,
-                     "AttributeError" if d is None else d * float(obj.getVolume()) / sym)
-        elif d is None or not fclose(tot, d * float(obj.getVolume()) / sym):
-            fail(f"mass-density-volume-{lvl}", "component mass == density x volume / symmetry factor", tot,
-                 None if d is None else d * float(obj.getVolume()) / sym)
+        if not fclose(tot, d * float(obj.getVolume()) / sym):
+            key = f"mass-density-volume-{lvl}"
+            if comp_empty(obj):
+                key = "component-density-empty-composition-reports-material-density"
+            fail(key, "component mass == density x volume / symmetry factor", tot, d * float(obj.getVolume()) / sym)
         return
     kids = list(obj)
     sym = float(obj.getSymmetryFactor()) if lvl == "block" else 1.0
@@ -540,8 +562,6 @@ def edit_oracle(obj, op, a, res, bef, fail):
         sym = obj.parent.getSymmetryFactor() if (lvl == "component" and obj.parent) else 1.0
         if not fclose(got, want, scale=max(abs(m0), abs(a["m"])) * 1e-3):
             key = f"{op}-readback-{lvl}"
-            if lvl == "component" and sym != 1.0:
-                key = "component-setmass-symmetry-cut-block"
             if lvl == "assembly" and not fclose(float(obj.getVolume()), sum(float(b.getVolume()) for b in obj)):
                 # consequence of F5: the assembly's own volume is not the sum of its blocks'
                 key = "assembly-volume-first-block-area"
@@ -637,6 +657,8 @@ def edit_sequence(ctx, mir, assemblies, paths, targets, nedits, label, resync=6)
             amb = ambiguous(o, nucs)
             add_snap(ctx, mir, f"{label}: Model/Compo vs {level_of(o)} after {op}", dict(case, observed_at=level_of(o)),
                      o, paths[id(o)], [n for n in nucs if n not in amb])
+            if level_of(o) == "component":
+                add_comp_density(ctx, mir, f"{label}: Comp.density vs Component.density after {op}", case, o)
             additivity(o, fail, nucs[:3])
     return paths
 
@@ -800,6 +822,8 @@ def run_zero_refill(ctx, r):
                 fail(f"total-mass-is-sum-of-nuclides-{level_of(o)}", "getMass() == sum of nuclide masses (incl. all-zero)", tot, parts)
             add_snap(ctx, mir, f"{label}: Model/Compo vs {level_of(o)}", dict(case, observed_at=level_of(o)), o,
                      paths[id(o)], nucs)
+            if level_of(o) == "component":
+                add_comp_density(ctx, mir, f"{label}: Comp.density vs Component.density", case, o)
     run_session(ctx, mir, label)
 
 
@@ -1120,7 +1144,7 @@ def run_findings(ctx, r):
             ctx.fail("assembly-volume-first-block-area", "assembly volume == sum of block volumes",
                      {"assembly": a.name, "edit": "derived coolant removed from block 1",
                       "block_areas": [float(x.getArea()) for x in a]}, observed=vol, expected=sb)
-    # component-level setMass in a symmetry-cut block
+    # component-level setMass in a symmetry-cut block (repaired in /repo b5b7bad: an ordinary oracle clause now)
     ca = [x for x in core if x.getSymmetryFactor() == 3.0]
     if ca:
         blk = ca[0][1]
@@ -1131,7 +1155,7 @@ def run_findings(ctx, r):
         got = float(c.getMass(n))
         ctx.case(("setmass-cut",), nontrivial=True)
         if not fclose(got, 100.0):
-            ctx.fail("component-setmass-symmetry-cut-block", "setMass(n, m) reads back m at the same level",
+            ctx.fail("setmass-readback-component", "setMass(n, m) reads back m at the same level",
                      {"assembly": ca[0].name, "block": blk.name, "component": c.name, "nuclide": n,
                       "symmetry_factor": float(blk.getSymmetryFactor())}, observed=got, expected=100.0)
 
